@@ -400,12 +400,12 @@ def r5(ctx, R):
         if not (isinstance(a, ast.Tuple) and len(a.elts) == 2):
             R.bad(f, c, "refstack entry is not (frame index, reference)")
             continue
-        idx = norm(a.elts[0]).replace("self._impl.system", "<sys>").replace("self.system", "<sys>")
+        idx = q.rnorm(f, a.elts[0]).replace("self._impl.system", "<sys>").replace("self.system", "<sys>")
         shapes.add(idx)
         if idx != "<sys>.callstack.counter - 1":
             R.bad(f, c, "reference read is attributed to frame `%s`, the consumers compare with counter after the decrement "
                         "(must be callstack.counter - 1)" % norm(a.elts[0]))
-        g = {(t.replace("self._impl.system", "<sys>").replace("self.system", "<sys>"), l) for t, l in q.guards_of(f, c)}
+        g = {(t.replace("self._impl.system", "<sys>").replace("self.system", "<sys>"), l) for t, l in q.guards_of(f, c).resolved()}
         if ("<sys>.callstack.counter", "T") not in g:
             R.bad(f, c, "reference read recorded outside a formula execution")
     ga = ctx.func("BaseSpaceImpl.get_attr")
@@ -413,9 +413,9 @@ def r5(ctx, R):
     c = q.calls(ga, name="append", recv_endswith="refstack")
     if c:
         g = q.guards_of(ga, c[0])
-        if ("isinstance(value, ReferenceImpl)", "T") not in g or len(g) != 2:
+        if ("isinstance(self.namespace[name], ReferenceImpl)", "T") not in g or len(g) != 2:
             R.bad(ga, c[0], "not every reference read is recorded (guards: %s)" % sorted(g))
-        if norm(c[0].args[0].elts[1]) != "value" or norm((assigned_value(ga, "value") or [ast.Constant(0)])[0]) != "self.namespace[name]":
+        if q.rnorm(ga, c[0].args[0].elts[1]) != "self.namespace[name]":
             R.bad(ga, c[0], "recorded object is not the reference that was read")
     mp = ctx.func("Model.path")
     R.inst("Model.path getter records property_refs['path']")
